@@ -7,7 +7,7 @@
 
 use arimaa_engine_step::{Action, GameState};
 use arimaa_verif::core::*;
-use arimaa_verif::drive::{self, Obs, Profile, Source, WalkOpts};
+use arimaa_verif::drive::{self, Obs, Profile, WalkOpts};
 use arimaa_verif::gen::{self, Case, GameParams};
 use arimaa_verif::runner::{proptest_config, shard_seed};
 use proptest::prelude::*;
@@ -42,12 +42,14 @@ struct Prog {
 #[derive(Clone, Debug)]
 struct ConcCase {
     game: Case,
+    profile: Profile,
     progs: Vec<Prog>,
 }
 
 fn op() -> impl Strategy<Value = Op> {
     prop_oneof![
-        4 => (1u8..=2).prop_map(Op::Expand),
+        3 => Just(Op::Expand(1)),
+        5 => Just(Op::Expand(2)),
         2 => (1u8..=6, any::<bool>()).prop_map(|(n, r)| Op::CloneDrop(n, r)),
         3 => prop::collection::vec(any::<u16>(), 1..8).prop_map(Op::Walk),
         2 => Just(Op::Query),
@@ -56,21 +58,38 @@ fn op() -> impl Strategy<Value = Op> {
 }
 
 fn conc_case() -> impl Strategy<Value = ConcCase> {
-    let params = GameParams { max_ops: 80, w_setup: 1, w_pos: 5, w_small: 3, w_frozen: 0 };
+    // roots with a history behind them: recurrence-heavy small games (so that repetition lookups have
+    // something to find) as well as ordinary ones
+    let params = GameParams { max_ops: 160, w_setup: 1, w_pos: 3, w_small: 6, w_frozen: 1 };
     let prog = (prop::collection::vec(op(), 1..6), 0u8..4, prop::collection::vec(op(), 0..4)).prop_map(|(phase1, hand, phase2)| Prog { phase1, hand, phase2 });
-    (gen::game(params), prop::collection::vec(prog, 2..=8)).prop_map(|(game, progs)| ConcCase { game, progs })
+    (gen::game(params), prop_oneof![1 => Just(Profile::Normal), 3 => Just(Profile::Cycle), 1 => Just(Profile::Fight)], prop::collection::vec(prog, 2..=8))
+        .prop_map(|(game, profile, progs)| ConcCase { game, profile, progs })
 }
 
 struct Nop;
 impl Obs for Nop {}
 
-fn root_state(game: &Case) -> Option<GameState> {
-    // the root is the state the generated game reaches (so it has a history behind it)
+/// The actions of the generated game; the root is the state they reach (so it has a history).
+fn root_actions(c: &ConcCase) -> Option<Vec<Action>> {
     let mut st = Stats::default();
-    let (end, trace) = drive::run_case(game, &WalkOpts { profile: Profile::Normal, expand: None }, &mut Nop, &mut st).ok()?;
-    let _ = end;
-    let (mut eng, _) = drive::start_states(&game.start).ok()?;
-    for a in trace.actions.iter() {
+    let (_end, trace) = drive::run_case(&c.game, &WalkOpts { profile: c.profile, expand: None }, &mut Nop, &mut st).ok()?;
+    // a finished game has nothing to expand: step back to the last state without a result
+    let mut actions = trace.actions;
+    loop {
+        let g = fresh_root(&c.game.start, &actions)?;
+        if g.is_terminal().is_none() || actions.is_empty() {
+            break;
+        }
+        actions.pop();
+    }
+    Some(actions)
+}
+
+/// A FRESH instance of the root (every execution gets its own, so that anything a state computes
+/// lazily on first use is computed again, concurrently, in the concurrent run).
+fn fresh_root(start: &gen::Start, actions: &[Action]) -> Option<GameState> {
+    let (mut eng, _) = drive::start_states(start).ok()?;
+    for a in actions.iter() {
         eng = eng.take_action(a);
     }
     Some(eng)
@@ -232,26 +251,57 @@ fn execute(root: &Arc<GameState>, progs: &[Prog], concurrent: bool) -> Vec<(u64,
 }
 
 fn check_case(c: &ConcCase, st: &mut Stats) -> Check {
-    let root = match root_state(&c.game) {
-        Some(r) => Arc::new(r),
+    let actions = match root_actions(c) {
+        Some(a) => a,
+        None => {
+            st.bump("root_not_built");
+            return Ok(());
+        }
+    };
+    let mk = || fresh_root(&c.game.start, &actions).map(Arc::new);
+    let root = match mk() {
+        Some(r) => r,
         None => {
             st.bump("root_not_built");
             return Ok(());
         }
     };
     st.eval();
-    let seq = guard(|| execute(&root, &c.progs, false)).map_err(|p| Fail::new("C18:sequential_panic", p))?;
-    let con = guard(|| execute(&root, &c.progs, true)).map_err(|p| Fail::new("C18:concurrent_panic", p))?;
-    for (i, (a, b)) in seq.iter().zip(con.iter()).enumerate() {
-        ensure!(a == b, "C18:transcript", "thread {} of {}: concurrent transcript (hash {:#x}, {} items) differs from the sequential run (hash {:#x}, {} items)", i, seq.len(), b.0, b.1, a.0, a.1);
+    // concurrent runs first, each on a fresh root; the sequential reference last, on its own root
+    let mut cons = vec![];
+    for _ in 0..5 {
+        let r = mk().unwrap();
+        cons.push(guard(|| execute(&r, &c.progs, true)).map_err(|p| Fail::new("C18:concurrent_panic", p))?);
+    }
+    let seq_root = mk().unwrap();
+    let seq = guard(|| execute(&seq_root, &c.progs, false)).map_err(|p| Fail::new("C18:sequential_panic", p))?;
+    for con in cons.iter() {
+        for (i, (a, b)) in seq.iter().zip(con.iter()).enumerate() {
+            ensure!(a == b, "C18:transcript", "thread {} of {}: concurrent transcript (hash {:#x}, {} items) differs from the sequential run (hash {:#x}, {} items)", i, seq.len(), b.0, b.1, a.0, a.1);
+        }
     }
     let expanders = c.progs.iter().filter(|p| matches!(p.phase1.first(), Some(Op::Expand(_)) | Some(Op::Query) | Some(Op::CloneDrop(..)) | Some(Op::Walk(_)))).count();
     let handed: u64 = c.progs.iter().map(|p| p.hand as u64).sum();
     st.add("threads", c.progs.len() as u64);
+    st.add("concurrent_executions", 5);
     st.add("transcript_items", seq.iter().map(|x| x.1).sum());
     if root.is_play_phase() {
         st.bump("root_in_play_phase");
-        st.add("root_history_len", root.unwrap_play_phase().hash_history().len() as u64);
+        let pp = root.unwrap_play_phase();
+        st.add("root_history_len", pp.hash_history().len() as u64);
+        if pp.step() > 0 {
+            st.bump("root_mid_turn");
+        }
+        let h: Vec<u64> = pp.hash_history().iter().map(|z| z.board_state_hash()).collect();
+        let mut hs = h.clone();
+        hs.sort();
+        hs.dedup();
+        if hs.len() < h.len() {
+            st.bump("root_with_recurrence_in_history");
+        }
+        if root.valid_actions().len() != root.valid_actions_no_rep().len() {
+            st.bump("root_with_withheld_action");
+        }
     }
     if expanders >= 2 && handed >= 1 {
         st.nontrivial(fp_combine(seq.iter().fold(0, |acc, x| mix64(acc ^ x.0)), c.progs.len() as u64));
@@ -262,8 +312,7 @@ use arimaa_verif::ensure;
 
 fn case_json(c: &ConcCase) -> Value {
     // plain data: the root as start + actions, the programs in debug form (replayed by re-parsing)
-    let mut st = Stats::default();
-    let actions = drive::run_case(&c.game, &WalkOpts { profile: Profile::Normal, expand: None }, &mut Nop, &mut st).map(|x| x.1.actions).unwrap_or_default();
+    let actions = root_actions(c).unwrap_or_default();
     json!({
         "start": drive::start_json(&c.game.start),
         "actions": actions.iter().map(action_text).collect::<Vec<_>>(),
@@ -307,12 +356,6 @@ fn replay(path: &str) -> i32 {
     let case = &v["case"];
     let start = drive::start_from_json(&case["start"]).expect("start");
     let actions: Vec<Action> = case["actions"].as_array().unwrap().iter().map(|x| drive::parse_action_text(x.as_str().unwrap()).unwrap()).collect();
-    let (mut eng, _) = drive::start_states(&start).expect("start state");
-    let mut st = Stats::default();
-    let _ = drive::walk(&start, Source::Explicit(&actions), 0, &WalkOpts { profile: Profile::Normal, expand: None }, &mut Nop, &mut st);
-    for a in actions.iter() {
-        eng = eng.take_action(a);
-    }
     let progs: Vec<Prog> = case["programs"]
         .as_array()
         .unwrap()
@@ -323,11 +366,10 @@ fn replay(path: &str) -> i32 {
             phase2: p["phase2"].as_array().unwrap().iter().filter_map(op_from).collect(),
         })
         .collect();
-    let root = Arc::new(eng);
-    // a schedule-dependent failure may need several attempts
-    for _ in 0..200 {
-        let seq = execute(&root, &progs, false);
-        let con = execute(&root, &progs, true);
+    // a schedule-dependent failure may need several attempts; every execution gets a fresh root
+    for _ in 0..300 {
+        let con = execute(&Arc::new(fresh_root(&start, &actions).expect("root")), &progs, true);
+        let seq = execute(&Arc::new(fresh_root(&start, &actions).expect("root")), &progs, false);
         if seq != con {
             println!("C18:transcript: concurrent transcripts differ from the sequential run");
             return 1;
@@ -378,7 +420,18 @@ fn main() {
                     stats.frozen = false;
                     let v = match res {
                         Ok(()) => None,
-                        Err(TestError::Fail(reason, minimal)) => Some(json!({"clause": "C18:transcript", "detail": format!("{}", reason), "case": case_json(&minimal)})),
+                        Err(TestError::Fail(reason, minimal)) => {
+                            // the failure is schedule dependent: try to get the full message again
+                            let mut detail = format!("{}", reason);
+                            for _ in 0..50 {
+                                let mut tmp = Stats::default();
+                                if let Err(f) = check_case(&minimal, &mut tmp) {
+                                    detail = format!("{} (programs: {} threads; root reached after {} actions)", f.detail, minimal.progs.len(), root_actions(&minimal).map(|a| a.len()).unwrap_or(0));
+                                    break;
+                                }
+                            }
+                            Some(json!({"clause": "C18:transcript", "detail": detail, "case": case_json(&minimal)}))
+                        }
                         Err(TestError::Abort(r)) => Some(json!({"abort": format!("{}", r)})),
                     };
                     (stats, v)
